@@ -73,7 +73,7 @@ class SchedWorld(World):
         kw: Dict[str, Any] = {}
         if "cron" in spec:
             kw["cron"] = spec["cron"]
-        else:
+        if "at_us" in spec:  # a schedule may carry both: the cron expression then decides
             t = BASE + dt.timedelta(microseconds=spec["at_us"])
             kw["time"] = t if spec.get("aware", True) else t.replace(tzinfo=None)
         return ScheduledTask(task_name="sched:task", labels={"tag": spec["tag"]}, args=[spec["tag"]], kwargs={},
@@ -193,7 +193,7 @@ class SchedWorld(World):
                     e: Dict[str, Any] = {"args": [s["tag"]]}
                     if "cron" in s:
                         e["cron"] = s["cron"]
-                    else:
+                    if "at_us" in s:
                         t = BASE + dt.timedelta(microseconds=s["at_us"])
                         e["time"] = t
                     entries.append(e)
